@@ -49,7 +49,7 @@ def make_plan(seed: int, tier: str) -> dict:
     nf = 1 if info["uni"] else st.choice([2, 3])
     origin = st.choice(["fit", "fit", "load"])
     plan = {"seed": seed, "tier": tier, "engine": "apisim_c13", "kind": kind, "nf": nf, "origin": origin, "mseed": st.u64() & 0xFFFFFFFF,
-            "fit_iter": st.randint(3, 6), "ops": []}
+            "fit_iter": st.randint(3, 6), "train_n": st.choice([3, 4, 5]), "ops": []}
     n_ops = st.randint(3, 6 if tier == "quick" else 9)
     for i in range(n_ops):
         k = st.weighted([("personalize", 10), ("estimate", 5), ("simulate", 2 if kind in ("logistic_diag", "logistic_scalar") else 0), ("save_load", 2),
@@ -58,6 +58,13 @@ def make_plan(seed: int, tier: str) -> dict:
         if k == "personalize":
             op.update(algo=st.choice(PERSO), cohort=st.randint(0, 2), n=st.randint(1, 4), aseed=st.randint(0, 5), n_iter=st.choice([6, 10, 16]),
                       via_settings=st.bernoulli(0.4), reuse_settings=st.bernoulli(0.5), annealing=st.bernoulli(0.3))
+            # the commonest real call: the training cohort itself, or another cohort of the same size (shape coincidence with what the fit left behind)
+            w = st.weighted([("other", 6), ("same_size", 2), ("train", 2)])
+            if w == "same_size":
+                op["n"] = plan["train_n"]
+            elif w == "train":
+                op["cohort"] = "train"
+                op["n"] = plan["train_n"]
         elif k == "estimate":
             op.update(cohort=st.randint(0, 2), n=st.randint(1, 3))
         elif k == "simulate":
@@ -70,7 +77,13 @@ def make_plan(seed: int, tier: str) -> dict:
     return plan
 
 
+def _train_df(plan):
+    return workload.make_cohort(Stream(plan["mseed"], "train"), kind=plan["kind"], n=plan.get("train_n", 5), n_features=plan["nf"], max_visits=3, id_prefix="t")
+
+
 def _cohort_df(plan, idx, n):
+    if idx == "train":
+        return _train_df(plan)
     st = Stream(plan["mseed"], "cohort", idx)
     df = workload.make_cohort(st, kind=plan["kind"], n=max(n, 2), n_features=plan["nf"], max_visits=3, id_prefix=f"c{idx}_", missing_rate=0.1)
     ids = list(dict.fromkeys(df["ID"]))[:n]
@@ -143,7 +156,7 @@ def run_plan(plan: dict) -> dict:
     try:
         with ac.quiet():
             if plan["origin"] == "fit":
-                df0 = workload.make_cohort(Stream(plan["mseed"], "train"), kind=kind, n=5, n_features=nf, max_visits=3, id_prefix="t")
+                df0 = _train_df(plan)
                 model = workload.make_model(kind, nf)
                 model.fit(workload.to_data(df0, kind), "mcmc_saem", n_iter=plan["fit_iter"], seed=1, progress_bar=False)
             else:
